@@ -211,6 +211,9 @@ def check_register(rep, db, f, inst, style):
             owner_sb = p.state.mem.get(("fld", p.retval, "sandbox")) if isinstance(p.retval, tuple) else None
             if not dup_checked:
                 bad = "the result of the duplicate search is not asserted before the key is inserted"
+            elif backend[0] < pushes[0]:
+                bad = ("the backend is asked for an entry point BEFORE the duplicate check: a refused duplicate has already taken a backend slot that no owner will ever release "
+                       "(and first-match unregistration may later clear that orphan instead of the owner's slot)")
             elif not (key_ins == key_find == key_backend == owner_key):
                 bad = "key mismatch: searched %s, inserted %s, backend %s, owner %s" % (fmt(key_find), fmt(key_ins), fmt(key_backend), fmt(owner_key))
             elif owner_tr != (evs[backend[0]].extra or {}).get("ret"):
